@@ -144,6 +144,22 @@ def run_program(rec, hub, seed_rng, steps, letters="abcd", ill_rate=0.3, props=(
                 key = rng.choice(["no-such-item", 0]) if rng.random() < 0.5 else ({ls[0]: "no-such-item"} if ls else "zz")
             if kind == "read":
                 return (f"read {assign}", None, [lambda: x[key]])
+            if ill and isinstance(key, (dict, type(Ellipsis))) and x.values.size > 1 and rng.random() < 0.3:
+                # a right-hand side of the region's shape that cannot be stored: one of its cells (not the first) holds text / None
+                free = int(rng.integers(0, len(ls))) if ls else 0  # a region along ONE dimension (a column of cells), or one of several dimensions
+                one_d = rng.random() < 0.7
+                key_ok = idx.build_key(fd, U, ls, tuple(("-" if j_ == free else "1") if one_d else ("-" if k_ != "1" else "1") for j_, k_ in enumerate(assign)), rng, "id", "letter") if ls else Ellipsis
+                try:
+                    with hub.pause():
+                        region = np.asarray(x[key_ok].values if key_ok is not Ellipsis else x.values)
+                except Exception:
+                    region = None
+                if region is not None and region.size > 1:
+                    bad_rhs = np.array(region + 1000.0, dtype=object)  # other numbers than the region holds
+                    bad_rhs.reshape(-1)[int(rng.integers(1, bad_rhs.size))] = ["x", None, "1,5"][int(rng.integers(0, 3))]
+                    if rng.random() < 0.5:
+                        bad_rhs = bad_rhs.tolist()
+                    return ("write: a cell of the right-hand side cannot be stored", x, [lambda: x.__setitem__(key_ok, bad_rhs)])
             y = pick()
             c = int(rng.integers(0, 3))
             rhs = y if c == 0 else (float(rng.integers(-9, 9)) if c == 1 else np.ones(wrong_shape(x.dims.shape) if ill else x.dims.shape))
